@@ -17,7 +17,21 @@ SHRINK_PLAN = False
 
 
 def cases(seed, tier):
-    yield from streams.stream_cases(ID, seed, tier, kinds=["pause", "pause", "trip", "trip", "put"])
+    import copy
+
+    from sim import gen
+
+    rng = gen.rng_for(ID, seed, "raising-subscriber")
+    for i, c in enumerate(streams.stream_cases(ID, seed, tier, kinds=["pause", "pause", "trip", "trip", "put"])):
+        yield c
+        if i % 4 == 1 and c["re"].get("record_interruptions"):
+            # a subscriber (registered after the recorder) that chokes on some event - possibly an interruption
+            # record: each record still gets its own seq_num and is counted once
+            c2 = copy.deepcopy(c)
+            c2["variant"] = f"{c.get('variant')}-raising-subscriber"
+            c2["callbacks"] = {"cbX": {"raise_at": {"event": sorted({rng.randrange(0, 6), rng.randrange(0, 10)})}}}
+            c2["script"].insert(0, {"do": "subscribe", "cb": "cbX", "name": "all", "token": "x0"})
+            yield c2
 
 
 def check(res):
